@@ -23,7 +23,7 @@ CHECKS = {
          'Foreign attempts on every (requester, entity) kind including after the owner left; answers, silence behind barriers and the state handed to later joiners are checked.', '4 C05'),
  'C07': ('exploration', 'runtime monitoring: registry reference model over sequential histories + gated interleavings and step-through runs (last departure, creation, switch, join parked at every scheduling point they pass) with probe / gauge / goroutine-census oracles',
          'Create-join-switch-leave histories with id reuse judged by the model, probes, the session gauge and a frame-worker census; the dangerous overlaps (join x last departure, two last departures, late unregistration x creation) are forced with gates at scheduling points injected by the build overlay.', '4 C07'),
- 'C08': ('fault_enumeration', 'runtime monitoring: liveness oracles (process alive, normal-path departure exactly once, witnesses, gauges, goroutine census, panic log scan) over an enumerated catalogue of hostile inputs x life phases and thousands of failing bursts',
+ 'C08': ('fault_enumeration', 'runtime monitoring: liveness oracles (process alive, normal-path departure exactly once, witnesses, gauges, goroutine census, panic log scan) over an enumerated catalogue of hostile inputs x life phases and thousands of failing bursts; stalls, floods and keep-alive trials; wedge detection (two goroutine dumps) in step-through runs that park a departure or a relay at every scheduling point, plain and with the connection reset meanwhile',
          'Every offence of an enumerated catalogue (structural messages of core and modules with absent fields / boundary scalars, byte-level frames, broken WebSocket framing, bursts) is placed at each life phase against a child process with witnesses in the same and another session.', '4 C08'),
  'C09': ('exploration', 'sanitizer: Go race detector over repeated storms of 2-16 unsynchronised clients (free-running and jittered at injected scheduling points) + wedge / runtime-fatal / never-completed oracles; runtime monitoring: lock-order graph (held-set per goroutine, cycle = reachable deadlock) over sequential histories and step-through runs',
          'A -race build of the lab SUT with the production decorators and all modules is driven by repeated concurrent storms; any race report with a hagall frame, runtime fatal, request that never completes or goroutine left parked in hagall code is a violation.', '4 C09'),
@@ -56,9 +56,9 @@ CHECKS = {
 ENGINES = [
  {'name': 'E1 seq', 'path': 'internal/e1', 'serves_properties': ['C01','C02','C03','C04','C05','C06','C07','C10','C11','C12','C13','C14','C16','C17'], 'kind_free_text': 'sequential histories on the lab SUT judged by the reference model (internal/model), the view fold and probes'},
  {'name': 'E5 diff', 'path': 'internal/e1/diff.go', 'serves_properties': ['C03','C17'], 'kind_free_text': 'one recorded history, two runs (other sessions removed / flag set), normalised stream equality'},
- {'name': 'E2 conc', 'path': 'internal/e2', 'serves_properties': ['C01','C02','C07','C10','C11'], 'kind_free_text': 'gated interleavings at injected scheduling points (verifrt sched mode), order-free oracles at quiescence'},
+ {'name': 'E2 conc', 'path': 'internal/e2', 'serves_properties': ['C01','C02','C03','C04','C06','C07','C08','C09','C10','C11','C12','C13','C14','C16'], 'kind_free_text': 'gated interleavings at injected scheduling points (verifrt sched mode), order-free oracles at quiescence'},
  {'name': 'E3 race', 'path': 'internal/e3', 'serves_properties': ['C09'], 'kind_free_text': 'client storms on -race builds, race-report extraction and deduplication'},
- {'name': 'E4 fault', 'path': 'internal/e4', 'serves_properties': ['C02','C06','C08'], 'kind_free_text': 'offence catalogue x life phase, bursts; liveness oracles'},
+ {'name': 'E4 fault', 'path': 'internal/e4', 'serves_properties': ['C01','C02','C06','C08','C11'], 'kind_free_text': 'offence catalogue x life phase, bursts; liveness oracles'},
  {'name': 'E6 in vivo', 'path': 'sut/e6grid, sut/e6ids, sut/e6store', 'serves_properties': ['C10','C12','C20'], 'kind_free_text': 'real objects (grid, id generator) driven in child processes that log the input in flight; invariant walkers, exact references, porcupine'},
  {'name': 'E7 system', 'path': 'internal/fakes, internal/sut (StartReal)', 'serves_properties': ['C09','C15','C17'], 'kind_free_text': 'real binary behind fake discovery / credit services'},
  {'name': 'overlay+verifrt', 'path': 'internal/instr, overlaysrc/verifrt', 'serves_properties': [], 'kind_free_text': 'go/ast source instrumenter writing a build overlay of the current /repo tree; scheduling-point runtime (jitter, gates)'},
